@@ -64,8 +64,13 @@ def ambiguous_literals() -> List[Tuple[str, str]]:
                 if not (len(st.body) == 1 and isinstance(st.body[0], ast.Return)):
                     raise TranslationError("ambiguous_literals: branch is not a single return")
                 r = st.body[0].value
-                if not (isinstance(r, ast.Call) and isinstance(r.func, ast.Name) and r.func.id == "Token"
-                        and len(r.args) == 2 and isinstance(r.args[0], ast.Constant) and is_value(r.args[1])):
+                plain = (isinstance(r, ast.Call) and isinstance(r.func, ast.Name) and r.func.id == "Token"
+                         and len(r.args) == 2)
+                # Token.new_borrow_pos(type, value, borrow_t): same type and value, positions copied from t
+                borrow = (isinstance(r, ast.Call) and isinstance(r.func, ast.Attribute) and r.func.attr == "new_borrow_pos"
+                          and isinstance(r.func.value, ast.Name) and r.func.value.id == "Token" and len(r.args) == 3
+                          and isinstance(r.args[2], ast.Name) and r.args[2].id == arg)
+                if not ((plain or borrow) and not r.keywords and isinstance(r.args[0], ast.Constant) and is_value(r.args[1])):
                     raise TranslationError("ambiguous_literals: return is not Token(\"TYPE\", t.value): " + ast.unparse(r))
                 pairs.append((t.comparators[0].value, r.args[0].value))
                 ladder(st.orelse)
